@@ -67,10 +67,10 @@ check("C10", "fault_enumeration",
       "exhaustive fault and crash-point enumeration (in-process faults, kill at every syscall, crash-state model over the traced history)",
       "DESIGN.md §5 C10", "mc")
 check("C15", "fault_enumeration",
-      "Every meaningful (exit cause x connection phase) cell - 14 causes (close, drop, cut, text, bad header, trailing bytes, inline/off-reader/connect-hook panics, cancel, abort, drain) x 5 phases (idle, inline parked, off-reader parked, outbound queue full, during connect hooks) - on all serve_connection* entry points over in-memory streams, all ordered pairs and triples of cells on 2-3 connections, N same-cell connections, and the built-in accept loops (serve_listener, graceful drain, failed handshakes) over loopback TCP; an event log of all hooks, handlers and registry samples is checked per connection.",
-      "tokio multi-thread scheduler interleavings are not enumerated; the drain deadline ZERO is one timer tick.",
-      "exhaustive exit-cause x phase enumeration against running connections with an event-log oracle",
-      "DESIGN.md §5 C15", "mc")
+      "Every meaningful (exit cause x connection phase) cell - 14 causes (close, drop, cut, text, bad header, trailing bytes, inline/off-reader/connect-hook panics, cancel, abort, drain) x 5 phases (idle, inline parked, off-reader parked, outbound queue full, during connect hooks) - on all serve_connection* entry points over in-memory streams, all ordered pairs and triples of cells on 2-3 connections, N same-cell connections, and the built-in accept loops (serve_listener, graceful drain, failed handshakes) over loopback TCP; an event log of all hooks, handlers and registry samples is checked per connection. The registry clause under concurrent connections is decided by a loom part: 2-3 overlapping connection lifecycles (insert / alias / remove exactly as with_peer_registry issues them) on the real PeerRegistry, every interleaving for 2 lifecycles and preemption bound 2 (quick) / 3 (thorough) for 3, each connection checking from its own thread that it and its aliases are present while connected and absent afterwards.",
+      "tokio multi-thread scheduler interleavings of whole connections are not enumerated (the registry calls they make are, under loom); the drain deadline ZERO is one timer tick.",
+      "exhaustive exit-cause x phase enumeration against running connections with an event-log oracle, plus stateless model checking (loom DPOR) of overlapping connection lifecycles on the real registry",
+      "DESIGN.md §5 C15", "mc+lm")
 check("C16", "model_checking",
       "Explicit-state search over event sequences (off-reader request returning/erroring/panicking, off-reader notify, inline request, release of any parked handler, bursts) to depth 5-6 (quick) / 6-7 (thorough) for caps 1,2,3 (+16 and unlimited in thorough), plain and middleware-wrapped blocking routes; each sequence is replayed on a fresh in-memory WebSocket connection with gated handlers and compared, after every event, with a counter automaton (saturation replies, dropped notifies, inline liveness, slot release on every exit incl. panic, gauge <= cap).",
       "Handlers park on gates (no CPU-bound timing); one connection per scenario; tokio's blocking pool always has a free thread for a permitted handler.",
